@@ -8,7 +8,7 @@ fn be16(d: &[u8], at: usize) -> u16 { u16::from_be_bytes([d[at], d[at + 1]]) }
 struct Buf { b: [u8; 176], n: usize }
 impl std::io::Write for Buf {
     fn write(&mut self, d: &[u8]) -> std::io::Result<usize> { self.write_all(d)?; Ok(d.len()) }
-    fn write_all(&mut self, d: &[u8]) -> std::io::Result<()> { let mut i = 0; while i < d.len() { self.b[self.n] = d[i]; self.n += 1; i += 1; } Ok(()) }
+    fn write_all(&mut self, d: &[u8]) -> std::io::Result<()> { self.b[self.n..self.n + d.len()].copy_from_slice(d); self.n += d.len(); Ok(()) }
     fn flush(&mut self) -> std::io::Result<()> { Ok(()) }
 }
 
@@ -50,7 +50,22 @@ fn check_layout(out: &[u8], at: usize, e: &crate::Entry, path: &[u8]) -> usize {
 }
 /// entries(): every entry is laid out like git's and starts right after its predecessor; header offset 0 or 12
 fn h_write_entries<const P1: usize, const P2: usize, S: Src>(s: &mut S) {
-    let mut state = crate::State::new(gix_hash::Kind::Sha1);
+    // State::new() reads the clock (clock_gettime is outside Kani); same fields, fixed timestamp
+    let mut state = crate::State {
+        object_hash: gix_hash::Kind::Sha1,
+        timestamp: filetime::FileTime::from_unix_time(0, 0),
+        version: crate::Version::V2,
+        entries: vec![],
+        path_backing: vec![],
+        is_sparse: false,
+        tree: None,
+        link: None,
+        resolve_undo: None,
+        untracked: None,
+        fs_monitor: None,
+        offset_table_at_decode_time: false,
+        end_of_index_at_decode_time: false,
+    };
     let p1: [u8; P1] = s.bytes();
     let p2: [u8; P2] = s.bytes();
     state.path_backing.extend_from_slice(&p1);
@@ -70,17 +85,53 @@ fn h_write_entries<const P1: usize, const P2: usize, S: Src>(s: &mut S) {
     assert!(out.inner.n == s1 + s2 && end == header + (s1 + s2) as u32, "entries are contiguous and the byte count is reported");
     s.reach();
 }
-/// the saturated length field: loop-free obligation over a content-free path of ANY length
-fn h_path_len_field<S: Src>(s: &mut S) {
-    let len = s.usize();
-    let expect: u16 = if len >= 0xfff { 0xfff } else { len as u16 };
-    // mirror of the expression in Entry::write_to, kept here only to document what check_layout asserts for short paths
-    let field: u16 = if len >= entry::Flags::PATH_LEN.bits() as usize { entry::Flags::PATH_LEN.bits() as u16 } else { len.try_into().expect("fits") };
-    assert!(field == expect);
+/// single entry variant (cheaper): layout of one entry at header offset 0 or 12
+fn h_write_entry<const P1: usize, S: Src>(s: &mut S) {
+    let mut state = crate::State {
+        object_hash: gix_hash::Kind::Sha1, timestamp: filetime::FileTime::from_unix_time(0, 0), version: crate::Version::V2,
+        entries: vec![], path_backing: vec![], is_sparse: false, tree: None, link: None, resolve_undo: None, untracked: None,
+        fs_monitor: None, offset_table_at_decode_time: false, end_of_index_at_decode_time: false,
+    };
+    let p1: [u8; P1] = s.bytes();
+    state.path_backing.extend_from_slice(&p1);
+    let e1 = any_entry(s, 0..P1);
+    state.entries.push(e1.clone());
+    let header = if s.bool() { 12u32 } else { 0 };
+    let mut out = util::CountBytes::new(Buf { b: [0u8; 176], n: 0 });
+    out.count = header;
+    let end = entries(&mut out, &state, header).expect("writer never fails");
+    let s1 = check_layout(&out.inner.b, 0, &e1, &p1);
+    assert!(out.inner.n == s1 && end == header + s1 as u32, "entry size is a multiple of 8 and the byte count is reported");
+    s.reach();
+}
+
+/// flag words, every u32 of in-memory flags (loop-free, complete): what is stored in the 16-bit flags word and in the
+/// extended word is exactly git's layout (assume-valid 0x8000, extended 0x4000, stage 0x3000; extended word: intent-to-add
+/// 1<<13, skip-worktree 1<<14), and decoding them gives the same flags back; unknown extended bits are refused
+fn h_flag_words<S: Src>(s: &mut S) {
+    let fl = s.u32();
+    let mem = entry::Flags::from_bits_retain(fl);
+    let stored: u16 = mem.to_storage().bits();
+    assert!(stored == (fl & 0xf000) as u16, "flags word carries bits 12..15 only (the length is or-ed in by the writer)");
+    let len = s.u16();
+    s.assume(len <= 0x0fff);
+    let back = entry::at_rest::Flags::from_bits_retain(stored | len).to_memory();
+    assert!(back.bits() == (fl & 0xf000) | len as u32, "to_memory keeps the 16 stored bits");
+    let xw: u16 = entry::at_rest::FlagsExtended::from_flags(mem).bits();
+    assert!(xw == ((fl >> 16) as u16 & 0x6000), "extended word = intent-to-add (bit 13) | skip-worktree (bit 14)");
+    let xback = entry::at_rest::FlagsExtended::from_bits(xw).expect("known bits").to_flags().expect("valid");
+    assert!(xback.bits() == fl & ((1 << 29) | (1 << 30)), "extended flags decode to the same in-memory bits");
+    let any = s.u16();
+    assert!(entry::at_rest::FlagsExtended::from_bits(any).is_some() == (any & !0x6000 == 0), "unknown extended bits are refused (git: unknown index entry format)");
     s.reach();
 }
 
 harnesses! {
+    #[kani::proof] #[kani::unwind(4)] flag_words => h_flag_words::<_>;
+    #[kani::proof] #[kani::unwind(12)] write_entry_1 => h_write_entry::<1, _>;
+    #[kani::proof] #[kani::unwind(12)] write_entry_2 => h_write_entry::<2, _>;
+    #[kani::proof] #[kani::unwind(12)] write_entry_5 => h_write_entry::<5, _>;
+    #[kani::proof] #[kani::unwind(14)] write_entry_9 => h_write_entry::<9, _>;
     #[kani::proof] #[kani::unwind(24)] write_entries_1_2 => h_write_entries::<1, 2, _>;
     #[kani::proof] #[kani::unwind(24)] write_entries_2_1 => h_write_entries::<2, 1, _>;
     #[kani::proof] #[kani::unwind(24)] write_entries_3_6 => h_write_entries::<3, 6, _>;
